@@ -228,6 +228,11 @@ AltRounds(f, R, vals, fuel, envv, acc0) ==
 
 Leftover(f, R) == \E it \in BranchLeaves(f) : R[it.id] # <<>>
 
+\* the default value of a defaulted group: its members' own defaults (the harness and the generated code use the same)
+MemberDefault(it) == IF it.kind = "switch" THEN FALSE ELSE IF it.kind = "reqflag" THEN "U"
+                     ELSE IF it.arity = "opt" THEN "NONE" ELSE IF it.arity \in {"many", "some"} THEN <<>>
+                     ELSE IF it.vt = "int" THEN 7 ELSE "d"
+BranchDefault(br) == IF Len(br.fields) = 1 THEN MemberDefault(br.fields[1]) ELSE [t |-> [j \in DOMAIN br.fields |-> MemberDefault(br.fields[j])]]
 \* `pool` = the words nobody has claimed yet (with their positions); the result says which of them remain
 AltVal(f, acc, envv, pool) ==
   LET R0 == [i \in DOMAIN acc \cup {POOL} |-> IF i = POOL THEN pool ELSE acc[i]] IN
@@ -250,6 +255,8 @@ AltVal(f, acc, envv, pool) ==
      THEN IF \E b \in DOMAIN A : A[b].res = "phard" THEN [ok |-> FALSE, why |-> [k |-> "conv"]]
           ELSE IF Leftover(f, R0) THEN [ok |-> FALSE, why |-> [k |-> "leftover"]]
           ELSE IF f.arity = "opt" THEN [ok |-> TRUE, v |-> "NONE", pool |-> pool]
+          \* a defaulted choice / group (`fallback`, `fallback_with`): the default stands in only when nothing of it was typed
+          ELSE IF f.arity \in {"fallback", "fallback_with"} THEN [ok |-> TRUE, v |-> [v |-> 0, x |-> BranchDefault(f.branches[1])], pool |-> pool]
           ELSE [ok |-> FALSE, why |-> [k |-> "missing", id |-> f.id]]
      ELSE LET w  == IF S # {} THEN CHOOSE b \in S : \A c \in S : A[b].left < A[c].left \/ (A[b].left = A[c].left /\ b <= c)
                     ELSE MinOf(Z)
